@@ -97,3 +97,26 @@ func Seal(ev *mocrelay.Event) {
 	h2 := sha256.Sum256(h[:])
 	ev.Sig = hex.EncodeToString(h[:]) + hex.EncodeToString(h2[:])
 }
+
+// DerivedKey returns the i-th key of an unbounded, seed-pure family (for checks that need
+// more distinct authors than the fixed pool has).
+func DerivedKey(i int) Key {
+	h := sha256.Sum256([]byte(fmt.Sprintf("verif-derived-key-%d", i)))
+	priv, pub := btcec.PrivKeyFromBytes(h[:])
+	return Key{Priv: priv, Pub: hex.EncodeToString(schnorr.SerializePubKey(pub))}
+}
+
+// SignIDWith recomputes the id over the event's own fields (whatever pubkey it claims) and
+// signs that id with k: a signature that is valid under k, not under the claimed pubkey.
+func SignIDWith(ev *mocrelay.Event, k Key) {
+	if ev.Tags == nil {
+		ev.Tags = []mocrelay.Tag{}
+	}
+	h := sha256.Sum256(Canonical(ev))
+	ev.ID = hex.EncodeToString(h[:])
+	sig, err := schnorr.Sign(k.Priv, h[:])
+	if err != nil {
+		panic(err)
+	}
+	ev.Sig = hex.EncodeToString(sig.Serialize())
+}
